@@ -20406,6 +20406,12 @@ pub mod verif_hooks_revoke {
 		pub counterparty_next: u64,
 		/// `channel_state` is `ChannelReady(_)`
 		pub channel_ready: bool,
+		/// `channel_state` is `AwaitingChannelReady(_)` with `OUR_CHANNEL_READY` set
+		pub awaiting_our_channel_ready_sent: bool,
+		/// `channel_state` is `AwaitingChannelReady(_)` with `THEIR_CHANNEL_READY` set
+		pub awaiting_their_channel_ready_received: bool,
+		/// `channel_state` is `AwaitingChannelReady(_)` with `WAITING_FOR_BATCH` set
+		pub awaiting_waiting_for_batch: bool,
 		/// `AWAITING_REMOTE_REVOKE` is set
 		pub awaiting_remote_revoke: bool,
 		/// `PEER_DISCONNECTED` is set
@@ -20433,6 +20439,9 @@ pub mod verif_hooks_revoke {
 				holder_next: self.holder_commitment_point.next_transaction_number(),
 				counterparty_next: self.context.counterparty_next_commitment_transaction_number,
 				channel_ready: matches!(self.context.channel_state, ChannelState::ChannelReady(_)),
+				awaiting_our_channel_ready_sent: matches!(self.context.channel_state, ChannelState::AwaitingChannelReady(f) if f.is_set(AwaitingChannelReadyFlags::OUR_CHANNEL_READY)),
+				awaiting_their_channel_ready_received: matches!(self.context.channel_state, ChannelState::AwaitingChannelReady(f) if f.is_set(AwaitingChannelReadyFlags::THEIR_CHANNEL_READY)),
+				awaiting_waiting_for_batch: matches!(self.context.channel_state, ChannelState::AwaitingChannelReady(f) if f.is_set(AwaitingChannelReadyFlags::WAITING_FOR_BATCH)),
 				awaiting_remote_revoke: matches!(self.context.channel_state, ChannelState::ChannelReady(_))
 					&& self.context.channel_state.is_awaiting_remote_revoke(),
 				peer_disconnected: self.context.channel_state.is_peer_disconnected(),
